@@ -31,23 +31,23 @@ def tunnel_family(pid, work, tier, seed, scripts, design, guards=None, what="", 
     mine = [v for v in res["viol"] if owns(v)]
     others = sorted({v["guard"] for v in res["viol"] if not owns(v)})
     confirmed = []
+    sigof = lambda v: "%s/%s.%s/%s/%s" % (v["guard"], v["k"], v["cls"], v["phase"], v["transport"])
     if mine:
-        by_script = {}
+        per = {}
         for v in mine:
-            by_script.setdefault(v["script"], []).append(v)
-        sids = sorted(by_script)[:40]
+            l = per.setdefault(sigof(v), [])
+            if v["script"] not in l and len(l) < 3:
+                l.append(v["script"])
+        sids = sorted({x for l in per.values() for x in l})
         again = [s for s in scripts if s["id"] in sids]
         res2 = ft.run_scripts(work, again, seed, tier, tag=pid.lower() + "-confirm", jobs=jobs)
-        seen2 = {(v["script"], v["guard"]) for v in res2["viol"]}
-        for sid in sids:
-            for v in by_script[sid]:
-                if (v["script"], v["guard"]) in seen2:
-                    confirmed.append(v)
+        seen2 = {sigof(v) for v in res2["viol"] if owns(v)}
+        confirmed = [v for v in mine if sigof(v) in seen2]
         if not confirmed:
-            raise HarnessError("violations of %s did not reproduce on re-execution: %s" % (pid, [(v["script"], v["guard"]) for v in mine[:5]]))
+            raise HarnessError("violations of %s did not reproduce on re-execution: %s" % (pid, sorted(per)[:5]))
     byid = {s["id"]: s for s in scripts}
     for v in confirmed:
-        sig = "%s/%s.%s/%s/%s" % (v["guard"], v["k"], v["cls"], v["phase"], v["transport"])
+        sig = sigof(v)
         out.violations.append({"signature": sig, "what": "%s violated by the gateway's reaction to a %s packet in phase %s over %s" % (v["guard"], v["k"], v["phase"], v["transport"]),
                                "guard": v["guard"], "script": byid.get(v["script"]), "step": v["step"], "event": v["event"],
                                "replay": "./bin/check %s --replay <this file>" % pid})
@@ -167,3 +167,21 @@ def c04(work, tier, seed, replay):
     out.coverage["rule"] = ("(issuing address, presenting X-Forwarded-For chain, presenting TCP peer, switch) enumerated by TLC from MC_Policy mode addr; tokens minted through the real "
                             "/connect flow from the issuing address and presented from the other; verdict by TLC (Policy!Verdict incl. ClientAddr) via G_C03_DialIffAllowed")
     return out
+
+
+@check("C15")
+def c15(work, tier, seed, replay):
+    import fam_tokens as fk
+    return fk.c15(work, tier, seed)
+
+
+@check("C08")
+def c08(work, tier, seed, replay):
+    import fam_stream as fs
+    return fs.c08(work, tier, seed, replay)
+
+
+@check("C06")
+def c06(work, tier, seed, replay):
+    import fam_stream as fs
+    return fs.c06(work, tier, seed, replay)
